@@ -34,11 +34,14 @@ pub struct PushOpts {
     pub goal: Goal,
     #[serde(default)]
     pub extra: Vec<String>,
+    /// run from the parent directory and name the workspace with `-d <dir>`
+    #[serde(default)]
+    pub via_d: bool,
 }
 
 impl Default for PushOpts {
     fn default() -> Self {
-        PushOpts { threads: 1, backup: String::new(), backup_count: String::new(), fuzz: None, mmap: false, verbosity: "-q".into(), dry_run: false, goal: Goal::All, extra: vec![] }
+        PushOpts { threads: 1, backup: String::new(), backup_count: String::new(), fuzz: None, mmap: false, verbosity: "-q".into(), dry_run: false, goal: Goal::All, extra: vec![], via_d: false }
     }
 }
 
@@ -103,6 +106,7 @@ pub fn gen_opts(ch: &mut Chooser, multi_thread_ok: bool) -> PushOpts {
         dry_run: false,
         goal: Goal::All,
         extra: vec![],
+        via_d: ch.chance(1, 6),
     }
 }
 
@@ -112,7 +116,16 @@ pub struct Observed {
 }
 
 pub fn push(cx: &mut CaseCtx, root: &Path, o: &PushOpts, ro: &RunOpts) -> Observed {
-    let out = ws::run_bin(&cx.env.bin, root, &o.args(), ro, &cx.env.scratch);
+    let out = if o.via_d && root.parent().is_some() && root.file_name().is_some() {
+        // same push, but started in the parent directory with -d <workspace>
+        let mut a = o.args();
+        let name = root.file_name().unwrap().to_string_lossy().into_owned();
+        a.insert(1, name);
+        a.insert(1, "-d".to_string());
+        ws::run_bin(&cx.env.bin, root.parent().unwrap(), &a, ro, &cx.env.scratch)
+    } else {
+        ws::run_bin(&cx.env.bin, root, &o.args(), ro, &cx.env.scratch)
+    };
     cx.evals += 1;
     let snap = ws::snapshot(root);
     Observed { out, snap }
